@@ -657,7 +657,7 @@ pub fn gen(cfg: &Cfg) -> Vec<String> {
     let scale = if cfg.thorough { 20 } else { 1 };
     match cfg.prop.as_str() {
         "C02" => {
-            let n = cfg.n.unwrap_or(600 * scale);
+            let n = cfg.n.unwrap_or(if cfg.thorough { 4000 } else { 600 });
             for i in 0..n {
                 let big = i % 7 == 0;
                 let k = r.range(1, 4);
@@ -682,8 +682,8 @@ pub fn gen(cfg: &Cfg) -> Vec<String> {
                     }
                 }
                 // all two-way splits of short streams (every stream in thorough up to 4 KiB)
-                let lim = if cfg.thorough { 4096 } else { 300 };
-                if stream.len() >= 2 && stream.len() <= lim && (cfg.thorough || i % 4 == 0) {
+                let lim = if cfg.thorough { 1200 } else { 300 };
+                if stream.len() >= 2 && stream.len() <= lim && i % (if cfg.thorough { 2 } else { 4 }) == 0 {
                     for p in 1..stream.len() {
                         let fl = if p % 2 == 0 { "s" } else { "a" };
                         ops.push(format!("proto.recv {fl} {h} {p},{} {term} 0", stream.len() - p));
@@ -771,7 +771,7 @@ pub fn gen(cfg: &Cfg) -> Vec<String> {
             }
         }
         "C10" => {
-            let n = cfg.n.unwrap_or(120 * scale);
+            let n = cfg.n.unwrap_or(if cfg.thorough { 700 } else { 120 });
             for i in 0..n {
                 let k = r.range(1, 3);
                 let rs: Vec<AbsResp> = (0..k).map(|_| gen_resp(&mut r, cfg.thorough && i % 40 == 0)).collect();
